@@ -213,6 +213,23 @@ def configs():
                     accept_nan=False))
     out.append(dict(names=[], defaults=[], mins=[], maxs=[], check_hitbounds=False,
                     accept_nan=True))
+    # the ways names (and the other arguments) are handed to the constructor: one bare
+    # name with bare numbers, a list, a tuple, a pandas Index
+    out.append(dict(names=["nu"], defaults=[1.0], mins=[0.0], maxs=[2.0],
+                    check_hitbounds=True, accept_nan=False, names_form="bare"))
+    out.append(dict(names=["a"], defaults=[0.5], mins=[-1.0], maxs=[2.0],
+                    check_hitbounds=False, accept_nan=True, names_form="bare"))
+    out.append(dict(names=["lam_of_model_7"], defaults=[0.0], mins=[-INF], maxs=[INF],
+                    check_hitbounds=True, accept_nan=False, names_form="bare"))
+    out.append(dict(names=["ab", "cd"], defaults=[0.5, 3.0], mins=[-1.0, -INF],
+                    maxs=[2.0, 5.0], check_hitbounds=True, accept_nan=False,
+                    names_form="list"))
+    out.append(dict(names=["ab", "c"], defaults=[0.5, 3.0], mins=[-1.0, 0.0],
+                    maxs=[2.0, INF], check_hitbounds=False, accept_nan=False,
+                    names_form="tuple"))
+    out.append(dict(names=["p", "qq", "r"], defaults=[0.5, 3.0, 0.0], mins=[-1.0, 0.0, -1.0],
+                    maxs=[2.0, 5.0, 1.0], check_hitbounds=True, accept_nan=True,
+                    names_form="index"))
     return out
 
 
@@ -270,6 +287,21 @@ def make(cfg):
     # the names arrive as an array of strings which the caller re-uses afterwards
     narr = np.array(cfg["names"]) if len(cfg["names"]) else cfg["names"]
     omit = cfg.get("omit", ())
+    form = cfg.get("names_form")
+    if form:
+        import pandas as pd
+        nm_ = {"bare": lambda: str(cfg["names"][0]), "list": lambda: list(cfg["names"]),
+               "tuple": lambda: tuple(cfg["names"]),
+               "index": lambda: pd.Index(cfg["names"])}[form]()
+        if form == "bare":
+            v = Vector(nm_, cfg["defaults"][0], cfg["mins"][0], cfg["maxs"][0],
+                       check_hitbounds=cfg["check_hitbounds"], accept_nan=cfg["accept_nan"])
+        else:
+            v = Vector(nm_, tuple(cfg["defaults"]), list(cfg["mins"]), np.array(cfg["maxs"]),
+                       check_hitbounds=cfg["check_hitbounds"], accept_nan=cfg["accept_nan"])
+        m = Model(cfg["names"], cfg["defaults"], cfg["mins"], cfg["maxs"],
+                  cfg["check_hitbounds"], cfg["accept_nan"])
+        return v, m
     if omit:
         # arguments left out by the caller: no bound on that side, and defaults equal to
         # zero moved inside the bounds
